@@ -84,6 +84,13 @@ func (s *nodeStates) save(dirname string,
 			err = fs.Rename(tmpFn, fn)
 		}
 		err = firstError(err, dir.Sync())
+		if err == nil {
+			// the entries of the current log file are forgotten only once their index
+			// file is durable, a failed attempt must leave them in place for the next one
+			for _, n := range s.indexes {
+				n.currEntries = index{}
+			}
+		}
 	}()
 	w := newWriter(file)
 	defer func() {
@@ -119,7 +126,6 @@ func (s *nodeStates) save(dirname string,
 		if err := n.currEntries.encode(rw); err != nil {
 			return err
 		}
-		n.currEntries = index{}
 		rw, err = w.next()
 		if err != nil {
 			return err
